@@ -209,12 +209,6 @@ static unsigned fieldValue(const Field &f, uint8_t *out)
         if (f.tmpl[i] != '\x01') { out[i] = (uint8_t)f.tmpl[i]; continue; }
         const uint8_t c = vf_nondet_u8("b");
         vf_assume(c != 0 && c != '\r' && c != '\n');
-        // KNOWN-FINDING candidate (the list splitter defect already noted for C29/C28): a list item consisting only of VT/FF
-        // ends strListGetItem()'s iteration, so "Cache-Control: public, \v, no-store" is read as "public" and the reply is
-        // stored. Excluded here: VT and FF at the symbolic positions.
-#ifndef C11_SHOW   // -DC11_SHOW=1 re-admits the class (to show the counterexample again)
-        vf_assume(c != '\v' && c != '\f');
-#endif
         out[i] = c;
     }
     out[f.len] = 0;
